@@ -407,6 +407,117 @@ def rule_nb_pair(ctx, cfg, F):
     R.count("setfl_sites[%s]" % cfg, n)
 
 
+
+MSG_DONTWAIT = 0x40
+
+
+def rule_nb_mode(ctx, cfg, F):
+    R = ctx.rule("NB-MODE", "at the recvmsg call the read is non-blocking exactly on the paths that serve BlockingMode::Nonblocking: either O_NONBLOCK was set on the descriptor "
+                 "(fcntl F_SETFL succeeded) or the flags operand carries MSG_DONTWAIT there; on the Blocking and Timeout paths neither holds (a blocking receive must block, "
+                 "a timed one has already been told by poll that data is there)")
+    f = recvmsg_fn(F)
+    if not f:
+        R.violate("anchor-missing:recvmsg", "no unique function calls libc::recvmsg", config=cfg)
+        return
+    ex_ = Expr(f)
+    tr = Tracer(f)
+    sites = [b for b, t in f.calls_to("libc::recvmsg")]
+    setters, clearers = set(), set()
+    for b, t in f.calls_to("libc::fcntl"):
+        cmd = const_eval(ex_.of_operand(t["args"][1]))
+        fl = const_eval(ex_.of_operand(t["args"][2])) if len(t["args"]) > 2 else None
+        if cmd == F_SETFL and fl is not None:
+            (setters if fl & O_NONBLOCK else clearers).add(b)
+    # locals the flags operand is computed from
+    flag_locals = set()
+    for b in sites:
+        a = f.term(b)["args"][2]
+        work = [op_local(a)] if op_local(a) is not None else []
+        while work:
+            l = work.pop()
+            if l in flag_locals or l is None:
+                continue
+            flag_locals.add(l)
+            for (db, si, node) in f.defs().get(l, []):
+                if si is not None:
+                    for o in node["rv"].get("a", []):
+                        if op_local(o) is not None:
+                            work.append(op_local(o))
+    explorer = Explorer(f)
+    seen = {}
+
+    def valof(vals, o):
+        c = op_const(o)
+        if c is None and o.get("k") == "c" and "pv" in o:
+            c = o["pv"]
+        if c is not None:
+            return c
+        l = op_local(o)
+        return dict(vals).get(l) if l is not None and not o["pl"].get("p") else None
+
+    def step(b, st, env):
+        mode, nb, vals = st
+        d = dict(vals)
+        for s_ in f.stmts(b):
+            if s_["s"] != "assign" or s_["lhs"].get("p") or s_["lhs"]["l"] not in flag_locals:
+                continue
+            rv = s_["rv"]
+            v = None
+            if rv["r"] in ("use", "cast"):
+                v = valof(tuple(d.items()), rv["a"][0])
+            elif rv["r"] == "bin" and rv["op"] in ("BitOr", "BitAnd", "BitXor"):
+                x, y = valof(tuple(d.items()), rv["a"][0]), valof(tuple(d.items()), rv["a"][1])
+                if x is not None and y is not None:
+                    v = {"BitOr": x | y, "BitAnd": x & y, "BitXor": x ^ y}[rv["op"]]
+            d[s_["lhs"]["l"]] = v
+        vals = tuple(sorted(d.items()))
+        if b in sites:
+            fv = valof(vals, f.term(b)["args"][2])
+            seen.setdefault((mode, nb, fv), b)
+            return None
+        if b in setters:
+            nb = "pending:%d" % b
+        elif b in clearers:
+            nb = False
+        return (mode, nb, vals)
+
+    def edge(b, s, labs, st, env):
+        mode, nb, vals = st
+        for lab in labs:
+            if lab["kind"] == "variant" and (lab.get("adt") or "").endswith("BlockingMode") and lab.get("variant"):
+                mode = lab["variant"]
+            elif lab["kind"] == "variant_not" and (lab.get("adt") or "").endswith("BlockingMode") and lab.get("variant") and "|" not in lab["variant"]:
+                mode = lab["variant"]
+            if isinstance(nb, str) and lab["kind"] == "cmp" and op_const(lab["b"]) == 0:
+                sb = int(nb.split(":")[1])
+                if any(r.kind == "call" and r.block == sb for r in tr.roots_of_operand(lab["a"])):
+                    failed = (lab["op"] == "Lt" and lab["truth"]) or (lab["op"] == "Ge" and not lab["truth"]) or (lab["op"] == "Ne" and lab["truth"]) or (lab["op"] == "Eq" and not lab["truth"])
+                    nb = False if failed else True
+        return (mode, nb, vals)
+
+    explorer.walk(0, (None, False, ()), step, edge=edge)
+    R.count("recvmsg_paths[%s]" % cfg, len(seen))
+    modes_seen = set()
+    for (mode, nb, fv), b in sorted(seen.items(), key=repr):
+        modes_seen.add(mode)
+        if fv is None:
+            R.violate("%s:recvmsg-flags-unresolved" % f.path, "the flags operand of recvmsg is not a resolvable constant on the path serving %s" % mode, f.path, f.loc(b), config=cfg)
+            continue
+        effective = bool(nb) or bool(fv & MSG_DONTWAIT)
+        if mode == "Nonblocking" and not effective:
+            R.violate("%s:nonblocking-path-blocks" % f.path, "on the path serving BlockingMode::Nonblocking the read is blocking (O_NONBLOCK not set, flags %#x without MSG_DONTWAIT): try_recv would block" % fv,
+                      f.path, f.loc(b), config=cfg)
+        elif mode in ("Blocking", "Timeout") and effective:
+            R.violate("%s:%s-path-nonblocking" % (f.path, mode.lower()), "on the path serving BlockingMode::%s the read is non-blocking (%s): a blocking receive would fail with EAGAIN instead of blocking" % (
+                mode, "O_NONBLOCK set" if nb else "flags %#x carry MSG_DONTWAIT" % fv), f.path, f.loc(b), config=cfg)
+        elif mode is None:
+            R.violate("%s:mode-not-distinguished" % f.path, "recvmsg is reached on a path that does not distinguish the blocking mode", f.path, f.loc(b), config=cfg)
+        else:
+            R.ok("mode %s: %s read (flags %#x%s)" % (mode, "non-blocking" if effective else "blocking", fv, ", O_NONBLOCK set" if nb else ""), f.loc(b), cfg)
+    if "Nonblocking" not in modes_seen:
+        R.violate("%s:no-nonblocking-path" % f.path, "no path serving BlockingMode::Nonblocking reaches recvmsg", f.path, config=cfg)
+
+
 def _exit_calls(f, path):
     calls = []
     for b in path:
